@@ -171,6 +171,26 @@ HISTORY = {
     'C09r5-B': ('missed', 'R-transfer-restart extended: a transfer is cancelled under the same kind of key it was started with'),
     'C10r5-A': ('caught', 'R-removed-excluded existed'),
     'C10r5-B': ('caught', 'R-rollback-paired / R-log-owners existed'),
+    'C08r5-A': ('caught', 'R-tail-drop-monotone / R-offset-coherent existed'),
+    'C08r5-B': ('missed', 'R-head-drop-atomic extended: an early return of the head drop is evaluated against the list model for lengths 0..4'),
+    'C11r5-A': ('caught', 'R-sender-prev-adjacent (stale pair clause, added for C01r5-A) existed'),
+    'C11r5-B': ('missed', 'new rule R-owners-chunk-buffer: the chunk reassembly buffer is written only by the handler'),
+    'C13r5-A': ('caught', 'R-write-fifo existed'),
+    'C13r5-B': ('caught', 'R-decode-contained existed'),
+    'C14r5-A': ('missed', 'R-silent-timeout extended: some function between the poll handler and the socket read refreshes the stamp on every path after reading'),
+    'C14r5-B': ('missed', 'R-attribution extended: an incoming connection is refused only where the looked-up node is None'),
+    'C15r5-A': ('caught', 'R-delegate-agree existed'),
+    'C15r5-B': ('missed', 'new rule R-reset-replaces: reset(newData) assigns the container from its argument on every path'),
+    'C16r5-A': ('missed', 'new rule R-lock-client-identity: the default client id contains process id and object id'),
+    'C16r5-B': ('missed', 'R-lock-client-identity: every call of the lock implementation gets a clock read as the current time'),
+    'C17r5-A': ('caught', 'R-version-select existed'),
+    'C17r5-B': ('caught', 'R-setversion-guards existed'),
+    'C18r5-A': ('caught', 'R-majority existed'),
+    'C18r5-B': ('caught', 'R-cb-linear existed'),
+    'C19r5-A': ('caught', 'R-cb-linear existed'),
+    'C19r5-B': ('caught', 'R-success-guard existed'),
+    'C20r5-A': ('missed', 'R-fallback-every-tick tightened: the deadline is now minus the configured fallback timeout itself'),
+    'C20r5-B': ('missed', 'new rule R-state-before-notify: the state setter stores the state before running a user callback'),
 }
 
 
